@@ -5,8 +5,11 @@ CONSTANTS
   MaxObjFields = 2
   MaxUnionFields = 2
   MapExprs = FALSE
+  Kinds = {"enum","alias","object","union"}
+  Bearer = TRUE
+  Decls = {"safe","unsafe","dnl"}
   ArgMode = "free"
   MaxArgs = 2
-  EmitMod = 1
+  EmitMod = 4
 INVARIANTS Sound Complete MemoClean MemoSound Emit
 CHECK_DEADLOCK FALSE
